@@ -73,7 +73,7 @@ func handEnvelope(r *vlib.Rand, dest string, m *message.Message) []byte {
 	return []byte(out + ws(r) + "}" + ws(r))
 }
 
-var malformedKinds = []string{"random-bytes", "empty", "truncated", "non-object", "no-destination", "empty-destination", "null-destination", "ill-typed", "bad-base64"}
+var malformedKinds = []string{"random-bytes", "empty", "truncated", "non-object", "no-destination", "empty-destination", "null-destination", "ill-typed", "bad-base64", "trailing-garbage", "two-envelopes"}
 
 // malformedEnvelope returns a payload that is not a valid forwarder envelope, by construction.
 func malformedEnvelope(e *vlib.Env, no int) ([]byte, string) {
@@ -127,6 +127,15 @@ func malformedEnvelope(e *vlib.Env, no int) ([]byte, string) {
 	case "bad-base64":
 		good["payload"] = "!!! not base64 !!!"
 		b, _ = json.Marshal(good)
+	case "trailing-garbage":
+		// a complete, valid envelope followed by something else: the payload as a whole is not a JSON document
+		full, _ := json.Marshal(good)
+		b = append(full, []byte([]string{"x", "}", " {", "\n[1]", "null", ",", "\"t\""}[r.Intn(7)])...)
+	case "two-envelopes":
+		full, _ := json.Marshal(good)
+		good["uuid"] = inner.UUID + "-second"
+		second, _ := json.Marshal(good)
+		b = append(append(full, ws(r)...), second...)
 	}
 	if decodable(b) {
 		// cannot happen for the kinds above; keep the oracle sound anyway
